@@ -15,6 +15,33 @@ RULE = ("mode extraction: for each ordered pair of methods the first call is par
         "LinkedListQueue with every call under recover, each followed by a drain. non-trivial = round with >= 2 goroutines; distinct = distinct recorded rounds")
 
 
+
+def wide(ctx, tla, quick):
+    """Wide rounds (too wide for the linearisation search) judged by necessary conditions of the statement."""
+    wf = os.path.join(ctx.scratch, "c08.wide.ndjson")
+    p, crash = ctx.drv_crashable(["c08", "wide", "--rounds", 6 if quick else 200, "--out", wf], timeout=3000)
+    if crash:
+        ctx.report("wide rounds: process crash: %s in %s" % (crash["panic"], crash["frame"].split("(")[0]), "the driver died: %s" % crash["stderr"][-1500:], {"component": "c08-wide", "crash": crash})
+        return
+    r = ctx.tlc("Trace_ConcWide", workers=1, timeout=1500, cwd=tla, env_extra={"VERIF_TRACE": wf}, heap="8g")
+    cons = r.printed("CONSUMED")
+    if not cons:
+        core.log(r.text[-2000:])
+        raise core.Inconclusive("Trace_ConcWide did not finish")
+    a, b = [int(x) for x in cons[-1].split(",")]
+    mism = [(int(x.split(",")[0]), x.split(",", 1)[1].strip().strip('"')) for x in r.printed("MISMATCH")]
+    if a != b and len(mism) < 60:
+        raise core.Inconclusive("Trace_ConcWide consumed %d of %d lines" % (a, b))
+    rows = core.read_ndjson(wf)
+    ctx.cov["evaluations"] += sum(len(e["offered"]) for e in rows)
+    ctx.cov["traces_validated_against_impl"] += a
+    ctx.cov["distinct_nontrivial"] += a
+    for ln, why in mism:
+        e = rows[ln - 1]
+        ctx.report("wide %s %s: %s" % (e["kind"], e["shape"], why), "wide round (%s, %s, %d values offered, %d delivered, %d drained, %d panics): %s" % (
+            e["kind"], e["shape"], len(e["offered"]), sum(len(v) for v in e["got"].values()), len(e["drain"]), e["panics"], why),
+            {"component": "c08-wide", "round": {k: (v if k not in ("offered", "drain", "got") else "...") for k, v in e.items()}})
+
 def run(ctx, replay=None):
     tla = ctx.stage_specs()
     quick = ctx.tier == "quick"
@@ -86,6 +113,7 @@ def run(ctx, replay=None):
         "the gated wrapped queue is sequentially correct but not atomic (read, park, write), as the statement's 'non-thread-safe Queue/Stack'",
         "histories are judged by TLC's search for linearisation points on an ideal unbounded FIFO/LIFO",
     ]
+    wide(ctx, tla, quick)
     return ctx.finish(RULE, exhaustive=False, trusted=["TLC 1.8.0", "drv c08 (instrumented wrapped queue, event log)"])
 
 
